@@ -161,6 +161,14 @@ pub fn gen_c12(cx: &mut Ctx, prop: &str) {
 
 pub fn gen_c13(cx: &mut Ctx) {
     gen_c12(cx, "C13");
+    // nesting depth: balanced and unbalanced towers of parentheses and negations
+    for depth in [100usize, 254, 255, 256, 257, 300, 600] {
+        let open = "(".repeat(depth);
+        let close = ")".repeat(depth);
+        emit_text(cx, "C13", &format!("{}a{}", open, close), true);
+        emit_text(cx, "C13", &format!("{}a{}", open, ")".repeat(depth - 1)), true);
+        emit_text(cx, "C13", &format!("{}a | b{} & c", "!(".repeat(depth), close), true);
+    }
     // byte / Unicode soup
     let soup: Vec<char> = "ab01tfv ()()(){}{}&|!~^*+-_\t\n\u{a0}\u{2003}\u{17f}\u{212a}∧∨¬é$@#".chars().collect();
     for _ in 0..cx.scale * if cx.thorough { 200000 } else { 5000 } {
@@ -243,6 +251,18 @@ pub fn gen_c14(cx: &mut Ctx) {
     for e in crate::gen::wide_exprs(&mut cx.rng, &names(&["a", "b", "x_10"]), true) {
         cx.emit("C14", "roundtrip", &[Arg::F(Val::E(e.clone()))], true);
         cx.emit("C14", "print", &[Arg::F(Val::E(e))], true);
+    }
+    // deep trees: negation towers and alternating combs around the 8-bit boundary and beyond
+    for depth in [100usize, 254, 255, 256, 257, 300, 600] {
+        let mut tower = lit("a");
+        let mut comb = lit("a");
+        for k in 0..depth {
+            tower = !tower;
+            comb = if k % 2 == 0 { comb & lit("b") } else { comb | lit("x_10") };
+        }
+        for e in [tower, comb] {
+            cx.emit("C14", "roundtrip", &[Arg::F(Val::E(e))], true);
+        }
     }
     let leaves = vec![lit("a"), lit("x_10"), lit("-"), cst(true), cst(false)];
     for e in trees_up_to(if cx.thorough { 5 } else { 4 }, &leaves, 3, 1) {
@@ -445,8 +465,12 @@ pub fn gen_c15(cx: &mut Ctx) {
                     (s(*cx.rng.pick(dirs)), vec![Arg::F(x)])
                 }
             };
-            // keep objects small: expressions grow quickly under xor / derivative / cnf
+            // keep objects small: expressions grow quickly under xor / derivative, and the normal forms
+            // of a large tree are exponential
             if args.iter().any(|a| matches!(a, Arg::F(v) if val_size(v) > 600)) {
+                continue;
+            }
+            if matches!(op.as_str(), "cnf" | "dnf" | "nnf") && args.iter().any(|a| matches!(a, Arg::F(v) if val_size(v) > 60)) {
                 continue;
             }
             let nt = match (&args[0], args.get(1)) {
@@ -713,6 +737,18 @@ pub fn gen_c17(cx: &mut Ctx) {
             }
         }
     }
+    // every arity from 0 to 9 (a size ladder with holes misses "exactly 64 rows")
+    for n in 0..=9usize {
+        let ns: Vec<String> = (0..n).map(|i| format!("w{}", i)).collect();
+        for _ in 0..3 {
+            let bits = random_bits(&mut cx.rng, n);
+            let t = fn_as(1, &ns, &bits);
+            let fi = *cx.rng.pick(&FMTS);
+            let fo = *cx.rng.pick(&FMTS);
+            cx.emit("C17", "csv.to", &[Arg::F(t.clone()), Arg::A(s(fi)), Arg::A(s(fo))], true);
+            cx.emit("C17", "csv.round", &[Arg::F(t), Arg::A(s(fi)), Arg::A(s(fo))], true);
+        }
+    }
     // other identifier names
     for ns in [
         names(&["x_0", "x_1"]), names(&["B", "aa", "é"]), names(&["out", "result"]),
@@ -739,11 +775,19 @@ pub fn gen_c18(cx: &mut Ctx) {
     sets.push(names(&["変数", "ｘ"]));
     sets.push(names(&["e\u{301}", "遺伝子ａ"]));
     sets.push(names(&["p", "q", "r", "s"]));
+    sets.push(names(&["p", "q", "r", "s", "t"]));
+    sets.push(names(&["p", "q", "r", "s", "t", "u"]));
     for ns in sets {
         let mut sorted = ns.clone();
         sorted.sort();
-        for bits in all_functions(sorted.len()) {
-            if sorted.len() >= 3 && cx.rng.below(if sorted.len() >= 4 { 4096 } else { 4 }) != 0 {
+        // every function up to three inputs (a quarter of them at three), a few random ones above
+        let functions: Vec<Vec<bool>> = if sorted.len() <= 3 {
+            all_functions(sorted.len())
+        } else {
+            (0..4).map(|_| random_bits(&mut cx.rng, sorted.len())).collect()
+        };
+        for bits in functions {
+            if sorted.len() == 3 && cx.rng.below(4) != 0 {
                 continue;
             }
             let t = fn_as(1, &sorted, &bits);
